@@ -169,6 +169,9 @@ func (ev *Eval) block(b *Block, env *Env) Value {
 			if !ok || len(t.E) != len(s.Names) {
 				fail("destructuring a non-tuple")
 			}
+			// a new frame, as for let: a binder may reuse the name of an outer variable that a closure made
+			// earlier in this block refers to
+			env = NewEnv(env)
 			for i, n := range s.Names {
 				if n != "_" {
 					env.Set(n, t.E[i])
